@@ -5224,7 +5224,7 @@ class Method(Instruction):
         return 1
 
     def __str__(self) -> str:
-        return f"method {self.method_signature}"
+        return f'method "{self.method_signature}"'
 
 
 class Replace2(Instruction):
